@@ -1,4 +1,5 @@
 """C13 - StopWatch obeys its state machine under every call sequence."""
+import zlib
 import itertools
 from fractions import Fraction
 
@@ -114,13 +115,20 @@ def run_impl(duration, clock_list, ops):
     from oslo_utils import timeutils
     clock = Clock(clock_list)
     saved = timeutils.now
-    timeutils.now = clock
+    # the clock is the module-level hook `timeutils.now`, looked up at the time of each call: the hook
+    # is installed before the watch exists (mode 0), only after it was built under another clock
+    # (mode 1), or re-installed as a fresh callable before every call (mode 2) -- same readings each way
+    mode = zlib.crc32(repr((duration, list(ops))).encode()) % 3
+    timeutils.now = clock if mode == 0 else Clock([10 ** 9 + 7 * k for k in range(64)])
     outs, trace = [], []
     try:
         # both call forms of the constructor (pinned signature: StopWatch(duration=None))
         w = timeutils.StopWatch(duration) if len(ops) % 2 else timeutils.StopWatch(duration=duration)
+        timeutils.now = clock
         view = whitebox.watch_view()
         for op in ops:
+            if mode == 2:
+                timeutils.now = (lambda c=clock: c())
             before = view.snapshot(w)
             i0 = clock.i
             try:
